@@ -670,6 +670,16 @@ pub fn judge(case: &Case, keep_modules: bool) -> Result<Judged, String> {
                         let other_extra = is_branch_sem(p)
                             && ac.iter().any(|(id2, n2)| *id2 != id && *n2 > e.get(id2).copied().unwrap_or(0) && by_id.get(id2).map(|q| is_branch_sem(q)).unwrap_or(false));
                         let site_has_fn_label = site_desc(&full, &em.roles, p).contains("fn-label");
+                        let single_label_table = match full.funcs.get(p.func as usize).and_then(|f| f.ops.get(p.at)) {
+                            Some(Operator::BrTable { targets }) => {
+                                let mut ls: Vec<u32> = targets.targets().map(|t| t.unwrap_or(0)).collect();
+                                ls.push(targets.default());
+                                ls.sort();
+                                ls.dedup();
+                                ls.len() == 1
+                            }
+                            _ => false,
+                        };
                         let dir = if na < nt {
                             "missing-on-fall-through"
                         } else if na < ne && other_extra {
@@ -681,6 +691,10 @@ pub fn judge(case: &Case, keep_modules: bool) -> Result<Judged, String> {
                             "missing-at-a-construct-target"
                         } else if na < ne {
                             "missing"
+                        } else if single_label_table && !site_desc(&full, &em.roles, p).contains(" in-loop") {
+                            // the listed stale flag repeats a br_table's body at a SECOND target or on a later
+                            // loop iteration; with one target label and no loop around it nothing explains it
+                            "extra-at-its-only-target"
                         } else {
                             "extra"
                         };
